@@ -704,6 +704,14 @@ where
 		if !c.input_ids.is_empty() {
 			return Err(Error::TransactionAlreadyReceived(ret_slate.id.to_string()));
 		}
+		// nor does the context of a pending late-locked send of ours (whose recipient knows
+		// the id) hold inputs yet: that is no invoice of ours either
+		if c.late_lock_args.is_some() {
+			return Err(Error::GenericError(format!(
+				"A pending transaction with id {} already exists",
+				ret_slate.id
+			)));
+		}
 	}
 
 	let mut context = tx::add_inputs_to_slate(
